@@ -8,6 +8,7 @@ CONSTANTS
   DoorAlias <- AliasNone
   ResetAt = 4
   InitVals = {0}
+  PushSeqs <- MCPush
   Mode = "sketch"
   MaxOps = 1
 INVARIANTS ByteGetOK
